@@ -524,3 +524,42 @@ func docsSub(r *core.Run, name, rule string, cfg core.Cfg, docs [][]byte, fn fun
 	s.Transitions.Store(s.Evals.Load())
 	s.Done()
 }
+
+// TabCodeDocs returns documents in which code lines inside containers are indented with every mixture of spaces and tabs,
+// including tabs that straddle the column where the container's content or the code's content begins (such lines carry
+// virtual padding): container opener × ≤3 code lines, each spelled one of seven ways, directly or after a blank line.
+func TabCodeDocs() [][]byte {
+	openers := []string{"- foo\n", "1. foo\n", "> foo\n", "-   foo\n", "foo\n", "- > foo\n"}
+	conts := []string{"", "", ">", "", "", "  >"} // what a continuation line of the container starts with
+	lines := []string{"      a", "\t\tb", "\t  c", "  \t d", "\t\t\te", "        f", " \t\tg"}
+	var out [][]byte
+	for oi, op := range openers {
+		var rec func(body string, d int)
+		rec = func(body string, d int) {
+			if d > 0 {
+				out = append(out, []byte(op+conts[oi]+"\n"+body), []byte(op+body))
+			}
+			if d == 3 {
+				return
+			}
+			for _, l := range lines {
+				rec(body+conts[oi]+l+"\n", d+1)
+			}
+		}
+		rec("", 0)
+	}
+	return out
+}
+
+// corpusSub runs fn on every document of the structured corpus (c12StructuredDocs) accepted by keep (nil = all).
+func corpusSub(r *core.Run, name string, cfg core.Cfg, keep func([]byte) bool, fn func(s *core.Sub, cv *core.Conv, w []byte)) {
+	var docs [][]byte
+	for _, d := range c12StructuredDocs(r.Quick()) {
+		if keep == nil || keep(d) {
+			docs = append(docs, d)
+		}
+	}
+	docsSub(r, name, fmt.Sprintf("%d documents of %s under %s", len(docs), corpusRule, cfg), cfg, docs, fn)
+}
+
+const corpusRule = "the structured corpus (nesting documents, colliding heading sequences, footnote sequences, attribute blocks, replication families, leak-prone documents, printed model documents with tab/space indentation in every single-deviation spelling, small tables with every pair of cell contents, code lines under containers in every tab/space mixture)"
